@@ -23,6 +23,9 @@ Proof. destruct e; reflexivity. Qed.
 Lemma is_enil_erase e : is_enil (tmap_expr erase_comments e) = is_enil e.
 Proof. destruct e; reflexivity. Qed.
 
+Lemma is_decimal_int_erase e : is_decimal_int (tmap_expr erase_comments e) = is_decimal_int e.
+Proof. destruct e; reflexivity. Qed.
+
 Lemma is_snil_erase s : is_snil (tmap_stmt erase_comments s) = is_snil s.
 Proof. destruct s; reflexivity. Qed.
 
@@ -120,7 +123,8 @@ Proof.
     + (* ECall *) erase_norm. push_map. rewrite IHe by lia.
       rewrite sep_map_erase; [reflexivity|reflexivity|].
       intros x Hx. apply esize_in_list in Hx. push_map. rewrite IHe by lia. reflexivity.
-    + (* EMember *) erase_norm. match goal with |- context [if ?b then _ else _] => destruct b end; push_map; rewrite ?IHe by lia; reflexivity.
+    + (* EMember *) erase_norm. rewrite is_decimal_int_erase.
+      destruct computed, (is_decimal_int e1); cbn [negb andb]; push_map; rewrite ?IHe by lia; reflexivity.
     + (* EAssign *) erase_norm. push_map. rewrite ?IHe by lia. reflexivity.
     + (* ECompound *) erase_norm. push_map. rewrite ?IHe by lia. reflexivity.
     + (* EFunc *) erase_norm. push_map. rewrite IHs by lia.
